@@ -111,7 +111,7 @@ theorem gen_max_uncertainty_eq : @SLV.Gen.Mul.max_uncertainty = @SLV.Simplex.max
 theorem gen_uncertainty_maximized_eq : @SLV.Gen.Mul.uncertainty_maximized = @SLV.Simplex.uncertaintyMaximized := by
   funext α _ n s a
   unfold SLV.Gen.Mul.uncertainty_maximized
-  rw [gen_Simplex_projection_eq, gen_max_uncertainty_eq]
+  rw [gen_Simplex_projection_eq, gen_max_uncertainty_eq, gen_Simplex_normalized_eq]
   rfl
 
 theorem gen_Simplex_discount_eq : @SLV.Gen.Mul.Simplex_discount = @SLV.Simplex.discount := rfl
@@ -353,13 +353,13 @@ theorem gen_Opinion_abduce_eq :
     `MArr2::product2` is `outer2`; `Opinion::new` validates (panic ≙ error). -/
 theorem gen_product2_eq : @SLV.Gen.Mul.product2 = @SLV.product2U := by
   funext α _ n0 n1 w0 w1
-  unfold SLV.Gen.Mul.product2 SLV.product2U SLV.product2Raw
+  unfold SLV.Gen.Mul.product2 SLV.product2U SLV.product2Raw SLV.prodCand2
   rw [gen_OpinionRef_projection_eq, gen_Opinion_new_eq]
   simp only [outer2, Vector.getElem_ofFn, Fin.getElem_fin, Fin.eta]
 
 theorem gen_product3_eq : @SLV.Gen.Mul.product3 = @SLV.product3U := by
   funext α _ n0 n1 n2 w0 w1 w2
-  unfold SLV.Gen.Mul.product3 SLV.product3U SLV.product3Raw
+  unfold SLV.Gen.Mul.product3 SLV.product3U SLV.product3Raw SLV.prodCand3
   rw [gen_OpinionRef_projection_eq, gen_Opinion_new_eq]
   simp only [outer3, Vector.getElem_ofFn, Fin.getElem_fin, Fin.eta]
 
@@ -372,17 +372,21 @@ theorem gen_Simplex1d_into_opinion_eq : @SLV.Gen.Mul.Simplex1d_into_opinion = @S
 /-! ### src/mul/labeled.rs -/
 
 /- labelled `Product2` (`OpinionD2`): `product2_iter(&x, &y)` yields the entries of `outer2 x y` in row-major
-    order, `izip!` / `zip` pair entries of equal flat index; `Opinion::normalized` renormalises the base rate. -/
+    order, `izip!` / `zip` pair entries of equal flat index; `Opinion::normalized` renormalises the base rate.
+    The quotients `r = b / a` are lazily mapped iterators (generated as the tables of their items), `iproduct!(r0, r1)`
+    runs over them in the same row-major order: the item of flat index `k` is `(r0[(idx2 k).1], r1[(idx2 k).2])`. -/
 theorem gen_product2_labeled_eq : @SLV.Gen.Mul.product2_labeled = @SLV.product2L := by
   funext α _ n0 n1 w0 w1
-  unfold SLV.Gen.Mul.product2_labeled SLV.product2L SLV.product2Raw
+  unfold SLV.Gen.Mul.product2_labeled SLV.product2L SLV.product2Raw SLV.prodCand2
   rw [gen_OpinionRef_projection_eq, gen_Opinion_normalized_eq]
+  simp only [Vector.getElem_ofFn, Fin.getElem_fin]
   rfl
 
 theorem gen_product3_labeled_eq : @SLV.Gen.Mul.product3_labeled = @SLV.product3L := by
   funext α _ n0 n1 n2 w0 w1 w2
-  unfold SLV.Gen.Mul.product3_labeled SLV.product3L SLV.product3Raw
+  unfold SLV.Gen.Mul.product3_labeled SLV.product3L SLV.product3Raw SLV.prodCand3
   rw [gen_OpinionRef_projection_eq, gen_Opinion_normalized_eq]
+  simp only [Vector.getElem_ofFn, Fin.getElem_fin]
   rfl
 
 /-! ### `MergeJointConditions2::merge_cond2` (src/mul.rs), instantiated for the two product families -/
